@@ -319,7 +319,9 @@ CHECKS["C08"] = dict(
          "rebuilds from its newest snapshot and the WAL entries after it is the state after its committed prefix, under every storage operation of the Ready loop, so an "
          "entry at or below the persisted commit index contributes to the recovered state exactly as when it was applied. HYPOTHESES checked on every run: F4 (order of "
          "the Ready arm extracted from raftexample/raft.go: saveSnap -> wal.Save -> ... -> transport.Send -> publishEntries -> Advance, write errors fatal); "
-         "restore . serialize = id for the keyspace snapshot is property-tested in the repository, not proved. "
+         "restore . serialize = id for the keyspace snapshot is PROVED on the model of memdb/snapshot.go (Snap.decode_encode, snapshot_roundtrip_observable, "
+         "encode_deterministic, encode_injective under Exec.Global.Inv and the Go value ranges) and that model is compared byte for byte with GetSnapshot / state for "
+         "state with LoadSnapshot on every run (exec lines G/L/LB, mutated snapshots). "
          "NOT PROVED - FAULT ENUMERATION: 'reads on every node reflect every acknowledged write after any crash/restart combination' is checked only on the runs "
          "explored: workloads of several hundred writes with VERIF_SNAPCOUNT=5/20/50, SIGKILL of any subset including all nodes at random instants, restart in random order, "
          "then every key read through every node (linearizability incl. those reads, per-node agreement, ledger of acknowledged INCR/SADD), process liveness at snapshot points.",
